@@ -115,6 +115,9 @@ def run_scenario(sc: dict, policy, max_steps=20000):
           out['streams'][name] = []
           try:
             g = None
+            if cl.get('wait_install'):
+              # a second request stream on the generator another client installs
+              sch.yield_op(('pred', lambda: any(e['ev'] == 'Install' for e in EVENTS), 'wait-install'))
             if cl.get('gen') is not None:
               n, fail = cl['gen']
               EVENTS.append(dict(ev='InitCall', r=name))
